@@ -207,6 +207,8 @@ func genExpandCase(t *Tape, big bool) ([]Tuple, SetRef) {
 	return ts, root
 }
 
+var plainCfgGone = &Config{Enc: EncNone, NS: []*NSDef{{Name: "N0"}, {Name: "N1"}, {Name: "Gone"}}}
+
 func runC09(env *Env, rc *RunCtx) {
 	t := rc.CaseTape
 	big := rc.Run%200 == 7 // one real > 100 children case now and then
@@ -222,9 +224,34 @@ func runC09(env *Env, rc *RunCtx) {
 		page = t.Range(1, 3)
 	}
 	orderSeed, order := uint64(t.Choose(1<<30)), t.Choose(3)
+	// one case in eight: some nodes also hold subject sets of a namespace ("Gone")
+	// that is taken out of the configuration after the relationships were written.
+	// They are relationships like any other: the tree shows them (as leaves that
+	// lead nowhere) and everything stored after them
+	ghost := !big && len(tuples) > 0 && t.Bool(1, 8)
+	lim := Limits{Depth: g, Width: 1000}
+	if ghost {
+		k := t.Range(1, 4)
+		for i := 0; i < k; i++ {
+			x := tuples[t.Choose(len(tuples))]
+			gt := Tuple{NS: x.NS, Obj: x.Obj, Rel: x.Rel, Sub: Subject{Set: &SetRef{NS: "Gone", Obj: fmt.Sprintf("g%d", i), Rel: "m"}}}
+			at := t.Choose(len(tuples) + 1)
+			tuples = append(tuples[:at:at], append([]Tuple{gt}, tuples[at:]...)...)
+		}
+		rc.Count("probe_relationships_of_a_removed_namespace", 1)
+	}
+	withGone := func(f func() error) error {
+		if !ghost {
+			return f()
+		}
+		env.UseConfigCached(plainCfgGone, lim)
+		err := f()
+		env.UseConfigCached(plainCfg, lim)
+		return err
+	}
 	env.Wipe()
-	env.UseConfigCached(plainCfg, Limits{Depth: g, Width: 1000})
-	if err := env.LoadOrdered(tuples, orderSeed, order); err != nil {
+	env.UseConfigCached(plainCfg, lim)
+	if err := withGone(func() error { return env.LoadOrdered(tuples, orderSeed, order) }); err != nil {
 		env.T.Fatalf("harness: load: %v", err)
 	}
 	env.L1.pageSize.Store(int64(page))
@@ -279,7 +306,7 @@ func runC09(env *Env, rc *RunCtx) {
 			continue
 		}
 		if e != cur && e > 0 {
-			if err := env.Reload(tuples, Mix(orderSeed, uint64(e)), (order+e)%3); err != nil {
+			if err := withGone(func() error { return env.Reload(tuples, Mix(orderSeed, uint64(e)), (order+e)%3) }); err != nil {
 				env.T.Fatalf("harness: reload: %v", err)
 			}
 		}
@@ -492,9 +519,17 @@ func runC09(env *Env, rc *RunCtx) {
 			if d != 0 {
 				dp = &d
 			}
-			_, rt := sys.ExpandREST(root, dp)
+			rr, rt := sys.ExpandREST(root, dp)
 			gres, gerr := sys.Expand.Expand(sys.ctx(), &rts.ExpandRequest{Subject: rts.NewSubjectSet(root.NS, root.Obj, root.Rel), MaxDepth: int32(d)})
 			env.L1.pageSize.Store(int64(page))
+			if ghost && (rt == nil || gerr != nil) {
+				// the transports turn the tree back into names and may refuse a
+				// relationship of a namespace they no longer know: an error, not a tree
+				if rt == nil && !rr.OK() && gerr != nil {
+					rc.Count("transport_errors_on_removed_namespace", 1)
+					continue
+				}
+			}
 			if s := fromExpandNode(rt).shape(); s != tree.shape() && page == 0 {
 				rc.Violate("transport-disagrees", "rest", fmt.Sprintf("REST expand %s differs from the engine tree %s", s, tree.shape()), w(nil), e, et)
 				return
